@@ -489,6 +489,9 @@ func (s *Sim) execHTTP(d Decision) bool {
 	}
 	before := len(s.cidList)
 	h := s.httpDo(op.Method, op.Path, op.Body, op.Header)
+	if h == nil {
+		return false
+	}
 	s.afterSettle = append(s.afterSettle, func() {
 		s.mu.Lock()
 		if len(s.cidList) > before {
